@@ -296,6 +296,91 @@ fn run_el(kind: &str, ns: &str, key: &[u8], attrs: &[(Vec<u8>, Vec<u8>)]) -> Str
     out
 }
 
+/// https://html.spec.whatwg.org/multipage/semantics-other.html#case-sensitivity-of-selectors
+const HTML_CI_ATTRS: &[&str] = &[
+    "accept", "accept-charset", "align", "alink", "axis", "bgcolor", "charset", "checked", "clear",
+    "codetype", "color", "compact", "declare", "defer", "dir", "direction", "disabled", "enctype",
+    "face", "frame", "hreflang", "http-equiv", "lang", "language", "link", "media", "method",
+    "multiple", "nohref", "noresize", "noshade", "nowrap", "readonly", "rel", "rev", "rules",
+    "scope", "scrolling", "selected", "shape", "target", "text", "type", "valign", "valuetype",
+    "vlink",
+];
+
+fn run_elop(
+    op: &str,
+    flag: &str,
+    ns: &str,
+    name: &[u8],
+    needle: &[u8],
+    attrs: &[(Vec<u8>, Vec<u8>)],
+) -> String {
+    let css_op = match op {
+        "eq" => "=",
+        "inc" => "~=",
+        "dash" => "|=",
+        "pre" => "^=",
+        "suf" => "$=",
+        "sub" => "*=",
+        _ => return "bad-case".into(),
+    };
+    let css_flag = match flag {
+        "s" => " s",
+        "i" => " i",
+        "n" => "",
+        _ => return "bad-case".into(),
+    };
+    let (Some(name_s), Some(needle_s)) = (selector_text(name), selector_text(needle)) else {
+        return "bad-case".into();
+    };
+    if name.is_empty() {
+        return "bad-case".into();
+    }
+    let mut tag = b"<x".to_vec();
+    for (n, v) in attrs {
+        let (true, Some(q)) = (ok_attr_name(n), quote_attr_value(v)) else {
+            return "bad-case".into();
+        };
+        tag.push(b' ');
+        tag.extend_from_slice(n);
+        tag.push(b'=');
+        tag.extend_from_slice(&q);
+    }
+    tag.extend_from_slice(b" data-probe=p>");
+    let selector = format!(
+        "x[{}{css_op}\"{}\"{css_flag}]",
+        css_escape(name_s),
+        css_escape(needle_s)
+    );
+    let Some(doc) = wrap_ns(ns, tag) else {
+        return "bad-case".into();
+    };
+    let hits = match run_selectors(&[selector.clone()], &doc) {
+        Ok(h) => h,
+        Err(e) => return e,
+    };
+    let fired = !hits[0].is_empty();
+    let ci = match flag {
+        "i" => true,
+        "s" => false,
+        _ => ns == "html" && HTML_CI_ATTRS.contains(&name_s.to_ascii_lowercase().as_str()),
+    };
+    let expected = attrs
+        .iter()
+        .find(|(n, _)| n.eq_ignore_ascii_case(name))
+        .is_some_and(|(_, v)| attr_ref(op, ci, v, needle));
+    let mut out = format!("{}", fired as u8);
+    if fired != expected {
+        let tag = if needle.is_empty() { format!("attr-{op}-empty-operand") } else { format!("elop-{op}") };
+        out.push_str(&format!(
+            " ||ORACLE:C04:{tag} `{selector}` on {}: handler {} but CSS says {}",
+            String::from_utf8_lossy(&doc).escape_debug(),
+            if fired { "fired" } else { "did not fire" },
+            if expected { "match" } else { "no match" }
+        ));
+    }
+    out
+}
+
 pub fn run(line: &str) -> String {
     let f: Vec<&str> = line.split(' ').filter(|s| !s.is_empty()).collect();
     match f.as_slice() {
@@ -319,6 +404,12 @@ pub fn run(line: &str) -> String {
                 return "bad-case".into();
             };
             run_el(kind, ns, &k, &a)
+        }
+        ["elop", op, flag, ns, name, needle, attrs] => {
+            let (Some(nm), Some(nd), Some(a)) = (of_hex(name), of_hex(needle), parse_attrs(attrs)) else {
+                return "bad-case".into();
+            };
+            run_elop(op, flag, ns, &nm, &nd, &a)
         }
         _ => "bad-case".into(),
     }
